@@ -76,9 +76,14 @@ class _Auxiliar(BaseModel):
         """
         if isinstance(value, str):
             try:
-                value = json.loads(value)
+                decoded = json.loads(value)
             except Exception:
                 return value
+            if isinstance(decoded, str):
+                # A quoted JSON string is text, not a document: unwrapping it would lose the quotes, and the
+                # unwrapped text would be decoded once more when the model is dumped and validated again
+                return value
+            value = decoded
         if isinstance(value, dict) and not value:
             # Every optional-only property model would accept an empty object: it is none of them
             raise ValueError("An empty object is not a known property")
